@@ -125,7 +125,7 @@ theorem wf_commit {T} {ms : Mid} (hc : Ctx T ms.base) (hw : WF ms.base) (hI : In
   · intro e he
     rw [commit_fc2] at he
     rcases List.mem_append.mp he with h | h
-    · unfold untouched at h; exact hc.fc2_missed e (List.mem_filter.mp h).1
+    · unfold untouched at h; exact hw.fc2_missed e (List.mem_filter.mp h).1
     · obtain ⟨d, hd, rfl⟩ := List.mem_map.mp h
       exact (hI.fc2 d (List.mem_filter.mp hd).1).2.2.2.2
   · rw [SF_commit, hsf]; exact hw.sf_bound
